@@ -20,7 +20,10 @@
 (*   LedgerMinDistinct   how many distinct members must be LISTED          *)
 (*                       (code: C + 1)                                     *)
 (*   SyncMinListLen      minimal bookkeeper list length header_sync takes  *)
-(*                       (code: 3*len >= 2*N); it verifies len signatures  *)
+(*                       (code: 3*len >= 2*N)                              *)
+(*   SyncSigsTab         how many leading signatures header_sync verifies  *)
+(*                       for a bookkeeper list of length L (code: L, all   *)
+(*                       of them), as the set of the probed L*100 + m      *)
 (* Named deviation: MaskByPosition (see SigBase!VerifyMulti); repaired by   *)
 (* fix commit 900ecb87, the checks run with it FALSE.                       *)
 (***************************************************************************)
@@ -33,8 +36,13 @@ CONSTANTS N, C,
           MaxBk, MaxSigs,   \* bounds of the enumerated headers
           MaxOutsiders,     \* at most this many outsider entries in a bookkeeper list
           SigSlack,         \* sync: signature lists of length |bk|-1 .. |bk|+SigSlack (shorter ones are all alike)
-          AlignOpts         \* 0: any signature symbol at any position; 2/3: one signature per bookkeeper position,
+          AlignOpts,        \* 0: any signature symbol at any position; 2/3: one signature per bookkeeper position,
                             \*    each the listed key's own, the first listed key's (replay) or (3) garbage
+          SyncSigsTab,      \* sync: {L*100 + m}: a list of length L has its m leading signatures verified (probed);
+                            \*    lengths that are not in the table: all L signatures (the design)
+          QuorumPads,       \* quorum mode (below): the kinds of padding signatures; {} switches the mode off
+          QuorumMinBk, QuorumMaxBk,   \* quorum mode: lengths of the bookkeeper list (never more than N)
+          QuorumShort       \* quorum mode: padded signature lists of length |bk|-QuorumShort .. |bk|+1
 
 VARIABLES hdr, phase, accepted, act
 vars == <<hdr, phase, accepted, act>>
@@ -56,8 +64,39 @@ LenOK(nb, ns) == IF Which = "sync" THEN ns + 1 >= nb /\ ns <= nb + SigSlack ELSE
 \* aligned mode: option 1 = the listed key's own signature, 2 = the first listed key's (replayed), 3 = garbage
 AlignedSig(bk, i, o) == IF o = 1 THEN Good(bk[i]) ELSE IF o = 2 THEN Good(bk[1]) ELSE Garbage
 
+\* QUORUM MODE (C33).  The number of VALID signatures is a dimension of its own, independent of the number of
+\* LISTED bookkeepers: the header lists L distinct members; v of them (the first or the last v listed) have signed;
+\* the signature list is filled up with np padding signatures that add no listed signer (garbage, a signature over
+\* another message, a second signature of a peer that signed already, of an outsider) or none that is listed (a
+\* member that is not in the list), before ("head") or after ("tail") the valid ones.  Enumerated for every L, v.
+QuorumHdr(L, v, who, kind, np, place) ==
+    LET first == IF who = "first" THEN 1 ELSE L - v + 1
+        valid == [i \in 1..v |-> Good(first + i - 1)]
+        p     == CASE kind = "garbage"  -> Garbage
+                   [] kind = "stale"    -> Stale(1)
+                   [] kind = "repeat"   -> Good(first)
+                   [] kind = "unlisted" -> Good(L + 1)
+                   [] kind = "outsider" -> Good(Outsider)
+        pad   == [i \in 1..np |-> p]
+    IN [bk |-> [i \in 1..L |-> i], sigs |-> IF place = "tail" THEN valid \o pad ELSE pad \o valid]
+QuorumHdrs ==
+    {QuorumHdr(L, v, who, kind, np, place) :
+        <<L, v, who, kind, np, place>> \in
+            {t \in (QuorumMinBk..QuorumMaxBk) \X (0..QuorumMaxBk) \X {"first", "last"} \X QuorumPads
+                    \X (0..(QuorumMaxBk + 1)) \X {"tail", "head"} :
+                /\ t[1] <= N /\ t[2] <= t[1]
+                /\ t[2] + t[5] <= t[1] + 1                                  \* at most one surplus signature
+                /\ (t[5] = 0 \/ t[2] + t[5] + QuorumShort >= t[1])          \* no padding, or (nearly) up to the list length
+                /\ (t[4] = "repeat" => t[2] >= 1)
+                /\ (t[4] = "unlisted" => t[1] < N)}}
+
 -----------------------------------------------------------------------------
 (* the code *)
+\* signature.VerifyMultiSignature is handed this many signatures to verify for a bookkeeper list of length L
+SyncSigsVerified(L) == IF \E e \in SyncSigsTab : e \div 100 = L
+                       THEN (CHOOSE e \in SyncSigsTab : e \div 100 = L) % 100 ELSE L
+TwoThirds(n) == (2 * n + 2) \div 3         \* the least m with 3*m >= 2*n
+
 AllMembers(bk) == \A i \in DOMAIN bk : bk[i] \in Members
 
 \* LedgerStoreImp.verifyHeader, VBFT branch (height/timestamp/chain-config lookups are fixed by the harness)
@@ -71,7 +110,7 @@ LedgerAccept(h) ==
 SyncAccept(h) ==
     /\ Len(h.bk) >= SyncMinListLen                             \* len(Bookkeepers)*3 < len(PeerMap)*2
     /\ AllMembers(h.bk)
-    /\ VerifyMulti(h.bk, Len(h.bk), h.sigs, MaskByPosition)
+    /\ VerifyMulti(h.bk, SyncSigsVerified(Len(h.bk)), h.sigs, MaskByPosition)
 
 (* the properties *)
 ValidMemberSigners(h) == {k \in Members : \E i \in DOMAIN h.sigs : ValidFor(h.sigs[i], k)}
@@ -105,6 +144,7 @@ Next == \/ (phase = "idle" /\ \E nb \in 0..MaxBk : \E bk \in [1..nb -> 1..(N + 1
                                          Receive([bk |-> bk, sigs |-> sg])
                                 ELSE \E os \in [1..nb -> 1..AlignOpts] :
                                          Receive([bk |-> bk, sigs |-> [i \in 1..nb |-> AlignedSig(bk, i, os[i])]]))
+        \/ (phase = "idle" /\ QuorumPads # {} /\ \E h \in QuorumHdrs : Receive(h))
         \/ AddHeader \/ SyncBlockHeader
 Spec == Init /\ [][Next]_vars
 
@@ -117,5 +157,9 @@ SyncSound   == (Checked /\ Which = "sync" /\ accepted) => SyncOK(hdr)
 LedgerSoundUpTo == (Checked /\ Which = "ledger" /\ accepted /\ ~LedgerOK(hdr)) =>
                        (LedgerSigsVerified < C + 1 \/ (MaskByPosition /\ HasDup(hdr.bk)))
 SyncSoundUpTo   == (Checked /\ Which = "sync" /\ accepted /\ ~SyncOK(hdr)) =>
-                       (3 * SyncMinListLen < 2 * N \/ (MaskByPosition /\ HasDup(hdr.bk)))
+                       (3 * SyncMinListLen < 2 * N \/ 3 * SyncSigsVerified(Len(hdr.bk)) < 2 * N
+                           \/ (MaskByPosition /\ HasDup(hdr.bk)))
+\* quorum arithmetic: what is accepted has TwoThirds(N) listed signers; TwoThirds is the ceiling of 2N/3
+SyncQuorum      == (Checked /\ Which = "sync" /\ accepted) => Cardinality(Signers(hdr.bk, hdr.sigs)) >= TwoThirds(N)
+ASSUME \A n \in 0..64 : 3 * TwoThirds(n) >= 2 * n /\ (TwoThirds(n) > 0 => 3 * (TwoThirds(n) - 1) < 2 * n)
 =============================================================================
